@@ -687,11 +687,11 @@ SITES = {
 
 
 def run(prop, mir, src, ob):
-    import mirblocks
+    import mirblocks, mirflow
     a = Agg(mir, src, ob)
     for s in SITES.get(prop, []):
         getattr(a, s)()
-    for f in mirblocks.SITES.get(prop, []):
+    for f in mirblocks.SITES.get(prop, []) + mirflow.SITES.get(prop, []):
         try:
             f(a)
         except Untranslatable as e:
@@ -702,5 +702,5 @@ def run(prop, mir, src, ob):
 
 
 def has_sites(prop):
-    import mirblocks
-    return prop in SITES or prop in mirblocks.SITES
+    import mirblocks, mirflow
+    return prop in SITES or prop in mirblocks.SITES or prop in mirflow.SITES
